@@ -44,6 +44,8 @@ structure Prims (V : Type) where
   bin : BinOp → V → V → Option V          -- opAdd … (none: panic, e.g. integer division by zero)
   cmp : CmpOp → V → V → Option Bool
   assignTo : V → V → V                    -- new.assign(type of the old value)
+  ofBool : Bool → V                       -- Bool(b): what a comparison pushes
+  truth : V → Bool                        -- v.Bool(): what AND / OR / NOT / JUMPFALSE test
 
 variable {V : Type}
 
@@ -67,6 +69,26 @@ def evalCond (P : Prims V) (locals : List V) (c : Cond) : Option Bool := do
   let y ← evalE P locals c.b
   P.cmp c.op x y
 
+/-- boolean conditions: comparisons combined with Go's short-circuit operators -/
+inductive BExpr
+  | cmp (c : Cond)
+  | and (a b : BExpr)
+  | or (a b : BExpr)
+  | not (a : BExpr)
+  deriving Repr
+
+/-- Go's semantics: the right operand of `&&` / `||` is evaluated only if the left one does not
+    decide the result (so its panics do not happen either) -/
+def evalB (P : Prims V) (locals : List V) : BExpr → Option Bool
+  | .cmp c => evalCond P locals c
+  | .and a b => match evalB P locals a with
+    | some true => evalB P locals b
+    | r => r
+  | .or a b => match evalB P locals a with
+    | some false => evalB P locals b
+    | r => r
+  | .not a => (evalB P locals a).map (!·)
+
 /-! ### the compiler -/
 
 def ins (op : String) (a : Int := 0) : Instr := { op := op, a := a }
@@ -78,6 +100,13 @@ def compileE : Expr → List Instr
 
 def compileAssign (s : Assign) : List Instr := compileE s.rhs ++ [ins "LOCALSET" s.slot]
 def compileCond (c : Cond) : List Instr := compileE c.a ++ compileE c.b ++ [ins c.op.code]
+
+/-- `a && b`: a; AND len(b); b — `a || b` likewise with OR; `!a`: a; NOT -/
+def compileB : BExpr → List Instr
+  | .cmp c => compileCond c
+  | .and a b => compileB a ++ [ins "AND" (compileB b).length] ++ compileB b
+  | .or a b => compileB a ++ [ins "OR" (compileB b).length] ++ compileB b
+  | .not a => compileB a ++ [ins "NOT"]
 
 /-! ### the machine on straight-line code -/
 
@@ -129,16 +158,51 @@ def runCond (P : Prims V) (code : List Instr) (σ : St V) : Option (Bool × St V
         | y :: x :: rest => (P.cmp op x y).map fun b => (b, { σ' with ops := rest })
         | _ => none
 
+/-- the machine on condition code: value instructions, comparisons (push `Bool(b)`), and the
+    short-circuit instructions of do.go — AND: if the top is false, jump `A` instructions ahead
+    leaving it on the stack, else pop it; OR dually; NOT replaces the top. Jumps only go forward,
+    so the recursion is on the remaining code. -/
+def runJ (P : Prims V) : List Instr → St V → Option (St V)
+  | [], σ => some σ
+  | i :: rest, σ =>
+    if i.op = "AND" ∨ i.op = "OR" then
+      match σ.ops with
+      | t :: ops' =>
+        if (i.op = "AND" ∧ !P.truth t) ∨ (i.op = "OR" ∧ P.truth t) then runJ P (rest.drop i.a.toNat) σ
+        else runJ P rest { σ with ops := ops' }
+      | [] => none
+    else if i.op = "NOT" then
+      match σ.ops with
+      | t :: ops' => runJ P rest { σ with ops := P.ofBool (!P.truth t) :: ops' }
+      | [] => none
+    else match cmpOfCode i.op with
+      | some op =>
+        match σ.ops with
+        | y :: x :: ops' => (P.cmp op x y).bind fun b => runJ P rest { σ with ops := P.ofBool b :: ops' }
+        | _ => none
+      | none => (step1 P i σ).bind (runJ P rest)
+termination_by code => code.length
+decreasing_by
+  all_goals simp_wf
+  all_goals (try simp only [List.length_drop]) <;> omega
+
+/-- a condition's code followed by the conditional jump that pops the boolean -/
+def runCondJ (P : Prims V) (code : List Instr) (σ : St V) : Option (Bool × St V) :=
+  (runJ P code σ).bind fun σ' =>
+    match σ'.ops with
+    | t :: rest => some (P.truth t, { σ' with ops := rest })
+    | [] => none
+
 /-! ### programs: control flow over indexed leaves -/
 
 structure Prog where
   acts : List Assign
-  cnds : List Cond
+  cnds : List BExpr
   body : Stmt
 
 def leaves (p : Prog) : Leaves where
   act n := match p.acts[n]? with | some s => compileAssign s | none => []
-  cnd c := match p.cnds[c]? with | some k => compileCond k | none => [ins "PUSH" 0, ins "PUSH" 0, ins "EQ"]
+  cnd c := match p.cnds[c]? with | some k => compileB k | none => [ins "PUSH" 0, ins "PUSH" 0, ins "EQ"]
 
 /-- state of the control-flow level: the locals, or `none` after a panic (absorbing) -/
 def sem (P : Prims V) (p : Prog) : Sem (Option (List V)) where
@@ -146,10 +210,10 @@ def sem (P : Prims V) (p : Prog) : Sem (Option (List V)) where
     | some a => s.bind fun l => evalAssign P l a
     | none => s
   cval c s := match p.cnds[c]?, s with
-    | some k, some l => (evalCond P l k).getD false
+    | some k, some l => (evalB P l k).getD false
     | _, _ => false
   ceff c s := match p.cnds[c]?, s with
-    | some k, some l => if (evalCond P l k).isSome then some l else none
+    | some k, some l => if (evalB P l k).isSome then some l else none
     | _, _ => none
 
 def compileProg (p : Prog) : List Instr := CF.compile (leaves p) p.body
